@@ -12,6 +12,7 @@
 #include <fcntl.h>
 #include <string.h>
 #include <unistd.h>
+#include <errno.h>
 #include <stdint.h>
 #include <time.h>
 #include <sys/time.h>
@@ -125,13 +126,32 @@ static int (*real_open)(const char *, int, ...) = 0;
 static int (*real_open64)(const char *, int, ...) = 0;
 static int (*real_openat)(int, const char *, int, ...) = 0;
 
-static void a5sim_log_path(const char *path, int flags) {
-    if (!path || !(flags & (O_WRONLY | O_RDWR | O_CREAT | O_TRUNC | O_APPEND))) return;
+#define A5SIM_MAX_TRACKED 64
+static volatile int tracked_fds[A5SIM_MAX_TRACKED];
+static volatile int tracked_n = 0;
+
+static void a5sim_track_fd(int fd) {
+    if (fd < 0) return;
+    int i = __atomic_fetch_add(&tracked_n, 1, __ATOMIC_SEQ_CST);
+    tracked_fds[i % A5SIM_MAX_TRACKED] = fd + 1;
+}
+
+static int a5sim_is_tracked(int fd) {
+    int n = __atomic_load_n(&tracked_n, __ATOMIC_SEQ_CST);
+    if (n > A5SIM_MAX_TRACKED) n = A5SIM_MAX_TRACKED;
+    for (int i = 0; i < n; i++)
+        if (tracked_fds[i] == fd + 1) return 1;
+    return 0;
+}
+
+/* returns 1 if the open is one that can create or modify a file and was logged */
+static int a5sim_log_path(const char *path, int flags) {
+    if (!path || !(flags & (O_WRONLY | O_RDWR | O_CREAT | O_TRUNC | O_APPEND))) return 0;
     const char *log = getenv("A5SIM_FS_LOG");
-    if (!log || !*log || strcmp(path, log) == 0) return;
+    if (!log || !*log || strcmp(path, log) == 0) return 0;
     if (!real_open) real_open = (int (*)(const char *, int, ...))dlsym(RTLD_NEXT, "open");
     int fd = real_open(log, O_WRONLY | O_CREAT | O_APPEND, 0644);
-    if (fd < 0) return;
+    if (fd < 0) return 1;
     size_t n = strlen(path);
     if (n < 4000) {
         char buf[4096];
@@ -141,28 +161,59 @@ static void a5sim_log_path(const char *path, int flags) {
         (void)w;
     }
     close(fd);
+    return 1;
 }
 
 int open(const char *path, int flags, ...) {
     mode_t mode = 0;
     if (flags & O_CREAT) { va_list ap; va_start(ap, flags); mode = (mode_t)va_arg(ap, int); va_end(ap); }
     if (!real_open) real_open = (int (*)(const char *, int, ...))dlsym(RTLD_NEXT, "open");
-    a5sim_log_path(path, flags);
-    return real_open(path, flags, mode);
+    int logged = a5sim_log_path(path, flags);
+    int fd = real_open(path, flags, mode);
+    if (logged) a5sim_track_fd(fd);
+    return fd;
 }
 
 int open64(const char *path, int flags, ...) {
     mode_t mode = 0;
     if (flags & O_CREAT) { va_list ap; va_start(ap, flags); mode = (mode_t)va_arg(ap, int); va_end(ap); }
     if (!real_open64) real_open64 = (int (*)(const char *, int, ...))dlsym(RTLD_NEXT, "open64");
-    a5sim_log_path(path, flags);
-    return real_open64(path, flags, mode);
+    int logged = a5sim_log_path(path, flags);
+    int fd = real_open64(path, flags, mode);
+    if (logged) a5sim_track_fd(fd);
+    return fd;
 }
 
 int openat(int dirfd, const char *path, int flags, ...) {
     mode_t mode = 0;
     if (flags & O_CREAT) { va_list ap; va_start(ap, flags); mode = (mode_t)va_arg(ap, int); va_end(ap); }
     if (!real_openat) real_openat = (int (*)(int, const char *, int, ...))dlsym(RTLD_NEXT, "openat");
-    if (path && path[0] == '/') a5sim_log_path(path, flags);
-    return real_openat(dirfd, path, flags, mode);
+    int logged = (path && path[0] == '/') ? a5sim_log_path(path, flags) : 0;
+    int fd = real_openat(dirfd, path, flags, mode);
+    if (logged) a5sim_track_fd(fd);
+    return fd;
+}
+
+
+/* Write faults on the files the library itself opened for writing (never on anything else):
+ * with A5SIM_FS_FAULT=<seed> in the environment some write(2) calls on those descriptors are
+ * cut short, or fail with ENOSPC (disk full) or EIO. Seeded, counted per process. */
+static ssize_t (*real_write)(int, const void *, size_t) = 0;
+static volatile uint64_t write_calls = 0;
+
+ssize_t write(int fd, const void *buf, size_t n) {
+    if (!real_write) real_write = (ssize_t (*)(int, const void *, size_t))dlsym(RTLD_NEXT, "write");
+    const char *f = a5sim_is_tracked(fd) ? getenv("A5SIM_FS_FAULT") : 0;
+    if (f && *f) {
+        uint64_t k = __atomic_fetch_add(&write_calls, 1, __ATOMIC_SEQ_CST);
+        uint64_t z = (uint64_t)strtoull(f, 0, 10) + 0x9e3779b97f4a7c15ULL * (k + 1);
+        z = (z ^ (z >> 30)) * 0xbf58476d1ce4e5b9ULL;
+        z = (z ^ (z >> 27)) * 0x94d049bb133111ebULL;
+        z ^= z >> 31;
+        unsigned r = (unsigned)(z % 100);
+        if (r < 15 && n > 1) return real_write(fd, buf, 1 + (size_t)((z >> 8) % (n - 1))); /* short write */
+        if (r < 22) { errno = ENOSPC; return -1; }
+        if (r < 27) { errno = EIO; return -1; }
+    }
+    return real_write(fd, buf, n);
 }
